@@ -21,6 +21,8 @@ use std::time::Duration;
 struct Waiter {
     called: Micros,
     resolved: Option<(Micros, bool)>,
+    /// The caller dropped the future before it resolved: no obligation towards it.
+    gave_up: bool,
 }
 
 async fn api_alive(report: &mut Report, dht: &btdht::MainlineDht, info: &J, when: &str) -> bool {
@@ -236,7 +238,7 @@ fn scenario(ctx: &Ctx, idx: u64) -> Report {
                         let called = net4.now();
                         let slot = {
                             let mut w = waiters4.lock().unwrap();
-                            w.push(Waiter { called, resolved: None });
+                            w.push(Waiter { called, resolved: None, gave_up: false });
                             w.len() - 1
                         };
                         let ok = dht4.bootstrapped().await;
@@ -257,16 +259,27 @@ fn scenario(ctx: &Ctx, idx: u64) -> Report {
             let dht = dht.clone();
             let net2 = net.clone();
             let waiters = waiters.clone();
+            // a third of the callers give up after a while (the future is dropped); whatever they were
+            // told before that is judged like any other answer, giving up itself is not
+            let patience: Option<Micros> = if rng.gen_bool(0.33) { Some(rng.gen_range(100 * MS..60 * SEC)) } else { None };
             tasks.push(tokio::spawn(async move {
                 sleep_us(at).await;
                 let called = net2.now();
                 let slot = {
                     let mut w = waiters.lock().unwrap();
-                    w.push(Waiter { called, resolved: None });
+                    w.push(Waiter { called, resolved: None, gave_up: false });
                     w.len() - 1
                 };
-                let ok = dht.bootstrapped().await;
-                waiters.lock().unwrap()[slot].resolved = Some((net2.now(), ok));
+                match patience {
+                    None => {
+                        let ok = dht.bootstrapped().await;
+                        waiters.lock().unwrap()[slot].resolved = Some((net2.now(), ok));
+                    }
+                    Some(p) => match tokio::time::timeout(Duration::from_micros(p), dht.bootstrapped()).await {
+                        Ok(ok) => waiters.lock().unwrap()[slot].resolved = Some((net2.now(), ok)),
+                        Err(_) => waiters.lock().unwrap()[slot].gave_up = true,
+                    },
+                }
             }));
         }
 
@@ -359,6 +372,7 @@ fn scenario(ctx: &Ctx, idx: u64) -> Report {
                             }
                         }
                     }
+                    None if w.gave_up => report.count("waiters_that_gave_up"),
                     None => {
                         // a waiter that arrived late in the run (those started in the instant of a
                         // delivery can be that late) has no verdict before its own deadline
